@@ -34,7 +34,7 @@ const (
 type OpCode byte
 
 func (o OpCode) String() string {
-	if int(o) > len(opCodeNames) {
+	if int(o) >= len(opCodeNames) {
 		return "UNKNOWN"
 	}
 
